@@ -186,3 +186,26 @@ class FromFile(FromBase):
     def ok(self, cx): return A(file_readable(cx.str('mos_file_path')), wellformed(file_text(cx.str('mos_file_path'))))
     def malformed(self, cx): return A(file_readable(cx.str('mos_file_path')), z3.Not(wellformed(file_text(cx.str('mos_file_path')))))
     def unreadable(self, cx): return z3.Not(file_readable(cx.str('mos_file_path')))
+
+
+@contract('mosromgr.mostypes.MosFile.__str__')
+class MosFileStr(Contract):
+    props = ('C14', 'C18')
+    opaque = False
+
+    def entry(self, E):
+        st = State(L.Heap(0, 0), z3.IntVal(0))
+        o = SObj(E.repo.cls('RunningOrder'), st.new_obj(None))
+        st.objs[o.oid] = {'_xml': SNode(E.W.fresh('root', Node)), '_base_tag': NONE}
+        return st, {'self': o}
+
+    def requires(self, cx):
+        return [('document_root', cx.objs[cx.a['self'].oid]['_xml'].t != null)]
+
+    def ensures(self, cx, ex):
+        v = ex.value
+        return [('C14.serialisation_is_a_string_computed_from_the_whole_document',
+                 A(z3.BoolVal(isinstance(v, SStr)), v.t != none_s) if isinstance(v, SStr) else z3.BoolVal(False))]
+
+    def raises(self, cx, ex):
+        return [('C14+C12.serialising_never_raises[%s]' % ex.value.name(), z3.BoolVal(False))]
